@@ -87,7 +87,11 @@ func (h *verifC05) tokenRequestParams(p *Provider) {
 			nd.Assume(h.grant != g)
 		}
 	}
-	h.form.Set("grant_type", h.grant)
+	if nd.Choice("grant.inquery", 2) == 1 {
+		h.form.Set("?grant_type", h.grant) // grant_type in the URL query of the POST
+	} else {
+		h.form.Set("grant_type", h.grant)
+	}
 	// the parameters each grant reads, with arbitrary values (what they mean is C04/C07/C14/C15/C16's
 	// subject; here: who may use the grant)
 	switch oidc.GrantType(h.grant) {
@@ -178,6 +182,9 @@ func (h *verifC05) checkToken(rec *verifRec, p *Provider, server bool) {
 		nd.Cover("issued-client-credentials")
 		nd.Assert(nd.Contains(h.st.ccOK, who), "client_credentials: the storage confirmed the client's credentials")
 		nd.Assert(h.full, "client_credentials only when the storage supports it")
+	} else if g == oidc.GrantTypeDeviceCode && !server {
+		// Provider router, device grant: the documented rule is "authenticated iff confidential (web) application type"
+		nd.Assert(nd.Or(!IsConfidentialType(c), auth), "device grant: confidential (web) client authenticated")
 	} else {
 		nd.Assert(nd.Or(c.authMethod == oidc.AuthMethodNone, auth), "confidential client authenticated (secret confirmed by the storage or assertion key held for it)")
 	}
